@@ -265,7 +265,8 @@ def examine_structure(case):
 
 
 EXAMINERS = {'tyrving': examine_tyrving, 'qkids': examine_qkids, 'sportshall': examine_sportshall,
-             'bulgarian': examine_bulgarian, 'structure': examine_structure}
+             'bulgarian': examine_bulgarian, 'structure': examine_structure,
+             'sequence': lambda case: examine_sequence(case)}
 
 
 def examine(case):
@@ -403,7 +404,109 @@ def shard(ctx, payload):
         ctx.label('bulgarian-complete-range')
 
 
+_snaps = None
+
+
+def reset_state():
+    """Module state of the four scoring modules back to what it was right after import."""
+    global _snaps
+    from vlib.statesnap import Snap
+    if _snaps is None:
+        _snaps = [Snap(mod(n)) for n in ('tyrving_score', 'qkids_score', 'sportshall_score', 'bulgarian_score')]
+    for sn in _snaps:
+        sn.restore()
+    global _sh
+    _sh = None
+
+
+reset_state()       # snapshot at import
+
+
+def examine_sequence(case):
+    reset_state()
+    out = []
+    for step in case['steps']:
+        out = EXAMINERS[step['kind']](step)
+    for v in out:
+        v['sig'] = v['sig'] + ['interleaved']
+        v['case'] = case
+    return out
+
+
+def shard_mixed(ctx, payload):
+    """History independence: marks of all four systems, tables, ages and carriers interleaved in one process in seeded
+    segments of 30 calls from the just-imported module state; every answer is still judged by the exact oracle."""
+    n = payload
+    rng = random.Random(derive_seed(ctx.seed, 'C11-mixed', ctx.shard))
+    ty = [(g, ev) for g, tab in sorted(junior.tyrving_tables().items()) for ev in tab if athlib.check_event_code(ev)]
+    qk = [(ct, ev) for ct, tab in sorted(junior.qkids_tables().items()) for ev in tab]
+    sh = list(junior.sportshall_tables())
+    bg = list(junior.bulgarian_tables())
+    done = 0
+    while done < n:
+        reset_state()
+        seg = []
+        for _ in range(30):
+            k = rng.randrange(4)
+            if k == 0:
+                g, ev = rng.choice(ty)
+                params = junior.tyrving_tables()[g][ev]
+                age = rng.choice(junior.tyrving_ages(params))
+                kind, args = params
+                base = junior._base(age, args[2] if kind == 'race' else args[1] if kind == 'jump' else args[1][0])
+                c = max(1, int(base * 100) + rng.randrange(-400, 400))
+                step = {'kind': 'tyrving', 'gender': g, 'event': ev, 'age': age, 'centi': c}
+            elif k == 1:
+                ct, ev = rng.choice(qk)
+                row = junior.qkids_tables()[ct][ev]
+                a, b = sorted((float(row[1]), float(row[2])))
+                step = {'kind': 'qkids', 'comp': ct, 'event': ev, 'centi': rng.randrange(max(0, int(a * 100) - 200), int(b * 100) + 200)}
+            elif k == 2:
+                ev = rng.choice(sh)
+                ts = [int(t * 100) for p, t in junior.sportshall_tables()[ev]['thresholds']]
+                step = {'kind': 'sportshall', 'event': ev, 'centi': rng.randrange(max(0, min(ts) - 100), max(ts) + 300)}
+            else:
+                key = rng.choice(bg)
+                t = junior.bulgarian_tables()[key]
+                a, b = sorted((t['min'], t['max']))
+                step = {'kind': 'bulgarian', 'table': key, 'gender': key[3], 'event': key[4:], 'centi': rng.randrange(max(0, a - 50), b + 50)}
+            seg.append(step)
+            ctx.count()
+            done += 1
+            vs = EXAMINERS[step['kind']](step)
+            if vs:
+                for v in vs:
+                    v['sig'] = v['sig'] + ['interleaved']
+                    v['case'] = {'kind': 'sequence', 'steps': list(seg)}
+                ctx.violations(vs)
+                break
+    ctx.label('interleaved-single-process-calls', done)
+
+
+def shrink(bucket):
+    case = bucket['case']
+    if case.get('kind') != 'sequence':
+        return None
+    sig = bucket['sig']
+    steps = list(case['steps'])
+
+    def fails(st):
+        return any(v['sig'] == sig for v in examine_sequence({'kind': 'sequence', 'steps': st}))
+    if not fails(steps):
+        return None
+    i = 0
+    while i < len(steps) - 1:
+        t = steps[:i] + steps[i + 1:]
+        if fails(t):
+            steps = t
+        else:
+            i += 1
+    v = [v for v in examine_sequence({'kind': 'sequence', 'steps': steps}) if v['sig'] == sig][0]
+    return {'case': v['case'], 'observed': v['observed']}
+
+
 def run(ctx):
+    run_shards(ctx, 'checks.c11', 'shard_mixed', [6000 if ctx.tier == 'thorough' else 1200] * 16, disjoint=False)
     payloads = []
     structure = []
     for g, tab in sorted(junior.tyrving_tables().items()):
